@@ -183,3 +183,7 @@ from props import workbench as WB   # noqa: E402
 
 CLAUSES.append(Clause("object_history", lambda tier: WB.fa_programs(tier, "accept"), WB.run_fa, quick=500, thorough=5000, rule=WB.FA_RULE))
 KNOWN_PREDICATES = {}
+
+# coverage-guided second driver (atheris / libFuzzer through Hypothesis' fuzz_one_input) for the core clauses: (clause, quick runs, thorough runs)
+from harness.covfuzz import cov_clauses  # noqa: E402
+CLAUSES += cov_clauses('C01', CLAUSES, [('nfa_accept', 3000, 60000), ('dfa_accept', 1500, 30000), ('object_history', 1500, 30000)])
